@@ -120,6 +120,7 @@ func TestVerifC01(t *testing.T) {
 	hdRunProperty(t, hdProp{id: "C01", quick: 90, thorough: 900, minOps: 10,
 		opts: func(i int) hdGenOpts { return hdGenOpts{api: i%4 == 0, internal: i%2 == 0, prehello: true, v2: i%3 != 2} },
 		nontrivial: func(c *hdCase, tr string) bool { return hdHas(tr, "SHello") && hdHas(tr, "SError") },
+		extra:      hdStressResume,
 		directed: func() []*hdCase {
 			// every request type before hello, then a failing and a succeeding hello of each kind
 			pre := []hdOp{{K: "connect", C: 1, Addr: 1},
